@@ -3,19 +3,26 @@
 (* available lengths Lens; each is checked (Independent) and written out.     *)
 EXTENDS Segments, FiniteSetsExt, SequencesExt, Json, IOUtils, CSV
 
-CONSTANTS MaxCuts, Lens
+CONSTANTS MaxCuts, Lens, Stream
 
 \* Twrite (fixed 16, payload 5), Tclunk (fixed 4), Tgetattr (fixed 12): sizes 28, 11, 19
-MCFrames == << <<16, 5>>, <<4, 0>>, <<12, 0>> >>
+MCFrames == << <<16, 5, "msg">>, <<4, 0, "msg">>, <<12, 0, "msg">> >>
+\* stream B: a frame of an unregistered type with a 33-byte body (rejected, body discarded), then Twrite, Tgetattr: 40 + 28 + 19
+MCFramesB == << <<33, 0, "skip">>, <<16, 5, "msg">>, <<12, 0, "msg">> >>
 
 ToChunks(S, len) ==
   LET c == SetToSortSeq(S, <) 
       n == Len(c) IN
   [i \in 1..(n + 1) |-> (IF i = n + 1 THEN len ELSE c[i]) - (IF i = 1 THEN 0 ELSE c[i - 1])]
 
-MCChunkSets == UNION {UNION {{ToChunks(S, len) : S \in kSubset(k, 1..(len - 1))} : k \in 0..(IF MaxCuts < len - 1 THEN MaxCuts ELSE len - 1)} : len \in Lens}
+\* (kSubset of the CommunityModules handles sets of up to 62 elements)
+Sub(k, S) == IF Cardinality(S) <= 60 THEN kSubset(k, S)
+             ELSE CASE k = 0 -> {{}}
+                    [] k = 1 -> {{a} : a \in S}
+                    [] k = 2 -> {T \in {{a, b} : a \in S, b \in S} : Cardinality(T) = 2}
+MCChunkSets == UNION {UNION {{ToChunks(S, len) : S \in Sub(k, 1..(len - 1))} : k \in 0..(IF MaxCuts < len - 1 THEN MaxCuts ELSE len - 1)} : len \in Lens}
 
 Dump == ("GEN_OUT" \in DOMAIN IOEnv) =>
-          CSVWrite("%1$s", <<ToJson([chunks |-> chunks, mode |-> mode, path |-> path,
+          CSVWrite("%1$s", <<ToJson([stream |-> Stream, chunks |-> chunks, mode |-> mode, path |-> path,
                                      expect |-> Expected(1, 0, Sum(chunks))])>>, IOEnv.GEN_OUT)
 =============================================================================
